@@ -781,3 +781,23 @@ pub mod verif {
         c.is_valid(p)
     }
 }
+
+// ---------------------------------------------------------------------------
+// Verification hooks (add-only, compiled only with `--cfg yamaquasi_verif`).
+
+/// Single-curve run of the 128-bit ECM (stage 1 + stage 2) on the twisted Edwards
+/// curve through the projective point `g` (as produced by `Suyama11::params_point`
+/// for the ring Z/nZ), with explicit B1 and B2.
+#[cfg(yamaquasi_verif)]
+#[doc(hidden)]
+pub fn verif_c16_ecm_curve(n: u128, g: &ecm::Point, b1: u64, b2: f64) -> Option<(u128, u128)> {
+    let sb = ecm::SmoothBase::new(b1 as usize, false);
+    let (gx, gy, gz) = g.xyz();
+    let g128 = Point(
+        M128(u128::cast_from(Uint::from(gx))),
+        M128(u128::cast_from(Uint::from(gy))),
+        M128(u128::cast_from(Uint::from(gz))),
+    );
+    let c = Curve::from_point(n, g128);
+    ecm_curve(&c, &sb, b2, Verbosity::Silent)
+}
